@@ -140,3 +140,11 @@ Definition driver_replicas (loc : topo_t) (s : strategy) (ring : ring_t) (t : Z)
   get_replicas (replica_map true loc s ring) (map fst ring) t.
 Definition driver_replicas_prefix (loc : topo_t) (s : strategy) (ring : ring_t) (t : Z) : list Z :=
   get_replicas (replica_map false loc s ring) (map fst ring) t.
+
+(* ---------------------------------------------------------------- Metadata.get_replicas(keyspace, key), Murmur3Partitioner
+   Murmur3Token.hash_fn: h = int(murmur3(key)); return h if h != MIN_LONG else MAX_LONG   (the hash itself is C08's) *)
+Definition MIN_LONG : Z := - 2 ^ 63.
+Definition MAX_LONG : Z := 2 ^ 63 - 1.
+Definition murmur3_token (h : Z) : Z := if negb (h =? MIN_LONG) then h else MAX_LONG.
+Definition driver_replicas_for_hash (loc : topo_t) (s : strategy) (ring : ring_t) (h : Z) : list Z :=
+  driver_replicas loc s ring (murmur3_token h).
